@@ -44,6 +44,7 @@ def havoc_global(M, name, st):
 def register(M):
     ex = M.ex
     E, ME = M.ext, M.methods
+    uniform_facts = None
 
     def shape_of(st, size):
         if size is None:
@@ -102,7 +103,7 @@ def register(M):
         size = args[2] if len(args) > 2 else kw.get('size')
         return [lo, hi], shape_of(st, size)
 
-    def uniform_facts(get, a, st):
+    def uniform_facts(get, a, st):   # noqa: F811
         lo, hi = R(a[0]), R(a[1])
         return [lambda *ix: z3.If(lo < hi, z3.And(lo <= get(*ix), get(*ix) < hi), z3.If(lo == hi, get(*ix) == lo, z3.And(hi < get(*ix), get(*ix) <= lo)))]
     ME[('SGen', 'uniform')] = gen_draw('uniform', 'float', {'args': uniform_args, 'facts': uniform_facts})
@@ -237,6 +238,51 @@ def register(M):
         for c in range(len(tp) - 2, -1, -1):
             r = ITE(EQ(j, c), tp[c], r)
         return r
+
+    # ---- spec-side vocabulary (the concrete meaning is in vk/dsl.py)
+    B = M.builtins
+
+    def state_of(x, st):
+        px = st.deref(x) if isinstance(x, Ref) else x
+        if isinstance(px, SGen):
+            return px.state
+        if tag(px) == 'rngstate':
+            return px[1]
+        raise Unsupported('not a generator state: %r' % (px,))
+
+    def b_rng_state(args, kw, st, node):
+        s = args[0]
+        if s is None:
+            raise Unsupported('rng_state(None) has no specification value (entropy)')
+        return ('rngstate', SEED_STATE(Z(num(s))))
+    B['rng_state'] = b_rng_state
+    B['global_state'] = lambda args, kw, st, node: ('rngstate', G0)
+    B['global_seeded'] = lambda args, kw, st, node: ('rngstate', GSEED(Z(num(args[0]))))
+
+    def spec_draw(method, kind, facts_fn, nargs):
+        def f(args, kw, st, node):
+            state = state_of(args[0], st)
+            a = list(args[1:1 + nargs])
+            shape = shape_of(st, args[1 + nargs]) if len(args) > 1 + nargs else ()
+            arr, nxt = draw_array(st, state, method, a, shape, kind, lambda get: facts_fn(get, a, st) if facts_fn else [])
+            return (st.alloc(arr) if isinstance(arr, SArr) else arr, ('rngstate', nxt))
+        return f
+    B['rng_uniform'] = spec_draw('uniform', 'float', uniform_facts, 2)
+    B['rng_integers'] = spec_draw('integers', 'int', lambda get, a, st: [lambda *ix: z3.And(Z(num(a[0])) <= get(*ix), get(*ix) < Z(num(a[1])))], 2)
+    B['g_normal'] = spec_draw('gnormal', 'float', None, 2)
+    B['g_laplace'] = spec_draw('glaplace', 'float', None, 2)
+    B['g_uniform'] = spec_draw('guniform', 'float', uniform_facts, 2)
+
+    def b_rng_permutation(args, kw, st, node):
+        s0 = state_of(args[0], st)
+        n = num(args[1])
+        f = F('draw_permutation', ST, z3.IntSort(), z3.IntSort(), z3.IntSort())
+        inv = F('inv_permutation', ST, z3.IntSort(), z3.IntSort(), z3.IntSort())
+        k = bvar('k')
+        st.assume(forall([k], IMPLIES(in_range(k, 0, n), AND(in_range(f(s0, Z(n), k), 0, n), inv(s0, Z(n), f(s0, Z(n), k)) == k))))
+        st.assume(forall([k], IMPLIES(in_range(k, 0, n), AND(in_range(inv(s0, Z(n), k), 0, n), f(s0, Z(n), inv(s0, Z(n), k)) == k))))
+        return (st.alloc(SArr((n,), lambda kk: f(s0, Z(n), Z(kk)), 'int')), ('rngstate', F('adv_permutation', ST, z3.IntSort(), ST)(s0, Z(n))))
+    B['rng_permutation'] = b_rng_permutation
 
     # ---- global generator
     def np_seed(args, kw, st, node):
